@@ -25,7 +25,13 @@ func genC13(r *Rng) *Case {
 			for j := 0; j < k; j++ {
 				i := r.Intn(n)
 				kinds := []string{"tS", "lS", "nS", "tK", "nK", "bPh", "udA", "udR", "smA"}
-				e := Entry{K: kinds[r.Intn(len(kinds))], P: r.Intn(1 << 16), Key: op.Entries[i].Key, ML: op.Entries[i].ML}
+				e := Entry{K: kinds[r.Intn(len(kinds))], P: r.Intn(1 << 16), Q: r.Intn(1 << 16), Key: op.Entries[i].Key, ML: op.Entries[i].ML}
+				if r.Chance(1, 2) {
+					e.K2 = []string{"sL", "sL", "fS", "tS", "msg"}[r.Intn(5)]
+				}
+				if r.Chance(1, 4) {
+					e.K, e.K2 = "sL", []string{"tK", "nK", "tK"}[r.Intn(3)]
+				}
 				if e.K == "bPh" && op.Opt.Hash != 1 {
 					e.K = "nS"
 				}
@@ -135,6 +141,12 @@ func enumShapes() []*Case {
 			add(&Op{Fn: "X25519", KL: lenCode(kl), Pt: pt})
 		}
 	}
+	for _, ctx := range []int{255, 256, 300, 510} {
+		for ck := 1; ck <= 2; ck++ {
+			add(&Op{Fn: "VerifyOpts", Opt: Opt{Ctx: ctx, CK: ck}, E: &Entry{K: "ok", ML: 3}})
+			add(&Op{Fn: "PrivSign", Opt: Opt{Ctx: ctx, CK: ck}, ML: 3, Rd: &DevPlan{Trip: true}})
+		}
+	}
 	for h := 0; h <= 4; h++ {
 		for _, ctx := range []int{0, 1, 255, 256, 300} {
 			for _, ml := range []int{0, 63, 64, 65} {
@@ -183,6 +195,11 @@ func checkShape(c *Case, v *Verdict) {
 	}
 	if !out.Intact {
 		v.fail("shape-intact", "caller memory untouched", act, "%s modified caller-supplied memory", op.Fn)
+		return
+	}
+	if out.ClobberedEarlier != "" {
+		v.fail("shape-earlier-result-changed", "results of earlier calls stay as returned", out.ClobberedEarlier,
+			"after this %s call, what an earlier call had returned to its caller changed (%s)", op.Fn, out.ClobberedEarlier)
 		return
 	}
 	if out.Budget {
